@@ -170,7 +170,7 @@ func drive(ck *checks.Check, tier string) int {
 			switch {
 			case timedOut:
 				total.Inconclusive = append(total.Inconclusive, fmt.Sprintf("worker %d exceeded its %ds watchdog (dump: %s; last: %v)", i, to, dump, lastLines))
-			case fatal && inAvfs && ck.CrashIsViolation:
+			case fatal && inAvfs:
 				first := stderr
 				if j := strings.Index(first, "\n\n"); j > 0 {
 					first = first[:j]
